@@ -136,7 +136,6 @@ pub struct FrameParser {
     pub error: Option<String>,
 }
 
-const HEADER: &[u8] = b"Content-Length: ";
 
 impl FrameParser {
     pub fn push(&mut self, bytes: &[u8]) {
@@ -156,45 +155,70 @@ impl FrameParser {
         if self.error.is_some() {
             return None;
         }
-        // strict header: exactly `Content-Length: <digits>\r\n\r\n`
-        let n = self.buf.len().min(HEADER.len());
-        if self.buf[..n] != HEADER[..n] {
+        // header block per the LSP base protocol: `Name: value\r\n` fields (printable ASCII), an
+        // empty line, exactly one Content-Length whose value is a decimal number. Other fields
+        // (Content-Type) are allowed. Anything else is a framing error.
+        let head_end = self.buf.windows(4).position(|w| w == b"\r\n\r\n");
+        let scan = &self.buf[..head_end.map_or(self.buf.len(), |e| e + 2)];
+        // even an incomplete header block must look like header fields so far
+        let mut ok = true;
+        let pieces: Vec<&[u8]> = scan.split(|b| *b == b'\n').collect();
+        let npieces = pieces.len();
+        for (k, line) in pieces.into_iter().enumerate() {
+            // the last piece has no line feed behind it yet
+            let complete_line = k + 1 < npieces;
+            if complete_line && line.last() != Some(&b'\r') {
+                ok = false;
+            }
+            let line = if line.last() == Some(&b'\r') { &line[..line.len() - 1] } else { line };
+            if !complete_line && line.is_empty() {
+                continue;
+            }
+            if line.iter().any(|b| !(0x20..0x7f).contains(b)) {
+                ok = false;
+            }
+            if complete_line {
+                match line.iter().position(|b| *b == b':') {
+                    Some(0) | None => ok = false,
+                    Some(c) => {
+                        if line[..c].iter().any(|b| *b == b' ') {
+                            ok = false;
+                        }
+                    }
+                }
+            } else if k == 0 && !line.is_empty() && !line[0].is_ascii_alphabetic() {
+                ok = false;
+            }
+        }
+        if !ok || (head_end.is_none() && self.buf.len() > 512) {
             self.error = Some(format!(
-                "frame does not start with 'Content-Length: ' at output byte {}: {:?}",
+                "malformed header block at output byte {}: {:?}",
                 self.consumed,
-                String::from_utf8_lossy(&self.buf[..self.buf.len().min(40)])
+                String::from_utf8_lossy(&self.buf[..self.buf.len().min(60)])
             ));
             return None;
         }
-        if self.buf.len() < HEADER.len() {
-            return None;
+        let head_end = head_end?;
+        let mut lens = vec![];
+        for line in self.buf[..head_end].split(|b| *b == b'\n') {
+            let line = if line.last() == Some(&b'\r') { &line[..line.len() - 1] } else { line };
+            let c = line.iter().position(|b| *b == b':').unwrap_or(0);
+            if line[..c].eq_ignore_ascii_case(b"Content-Length") {
+                let v = String::from_utf8_lossy(&line[c + 1..]).trim().to_string();
+                lens.push(v);
+            }
         }
-        let mut i = HEADER.len();
-        let mut len: usize = 0;
-        let mut digits = 0;
-        while i < self.buf.len() && self.buf[i].is_ascii_digit() {
-            len = len.saturating_mul(10).saturating_add((self.buf[i] - b'0') as usize);
-            digits += 1;
-            i += 1;
-        }
-        if i == self.buf.len() {
-            return None;
-        }
-        let term = b"\r\n\r\n";
-        let avail = (self.buf.len() - i).min(4);
-        if digits == 0 || self.buf[i..i + avail] != term[..avail] {
+        if lens.len() != 1 || lens[0].is_empty() || !lens[0].bytes().all(|b| b.is_ascii_digit()) {
             self.error = Some(format!(
-                "malformed header at output byte {}: {:?}",
+                "header block at output byte {} must carry exactly one decimal Content-Length: {:?}",
                 self.consumed,
-                String::from_utf8_lossy(&self.buf[..(i + avail).min(self.buf.len())])
+                String::from_utf8_lossy(&self.buf[..head_end])
             ));
             return None;
         }
-        if avail < 4 {
-            return None;
-        }
-        let start = i + 4;
-        if self.buf.len() < start + len {
+        let len: usize = lens[0].parse().unwrap_or(usize::MAX / 2);
+        let start = head_end + 4;
+        if self.buf.len() < start.saturating_add(len) {
             return None;
         }
         let body: Vec<u8> = self.buf[start..start + len].to_vec();
